@@ -143,6 +143,7 @@ class Engine:
         self.kwargs_name = None
         self.max_paths = 4000
         self.loop_step = None
+        self.lenient_types = False
         self.lemma_mode = False
         self.effects_used = set()
         self.feas_checks = 0
@@ -242,8 +243,13 @@ class Engine:
         arr = self.heap_arr(st, key, ty)
         v, cond = self.coerce(val, ty)
         if cond is not None and not self.spec:
-            self.oblige("type.%s.%s" % (dc, name), "type", st, cond)
-            st.assume(cond)
+            if self.lenient_types:
+                # constructor that validates *after* storing: an ill-typed store leaves an arbitrary
+                # value (the normal-exit postconditions then have to re-establish the stored value)
+                v = SV(ty, z3.If(cond, v.t, S.fresh("illtyped_" + name, S.sort_of(ty))))
+            else:
+                self.oblige("type.%s.%s" % (dc, name), "type", st, cond)
+                st.assume(cond)
         st.heap[key] = z3.Store(arr, ref, v.t)
 
     # ------------------------------------------------------------------ coercion
@@ -345,6 +351,10 @@ class Engine:
             if sv.ty.nullable:
                 return z3.If(sv.t == 0, PyObj.O_none, PyObj.O_ref(sv.t))
             return PyObj.O_ref(sv.t)
+        if k in ("kwargs", "exc"):
+            return PyObj.O_other(sv.t)
+        if k == "enum":
+            return PyObj.O_other(sv.t + 1000000 * self.class_id(sv.ty.cls))
         raise Unsupported("cannot box %r" % (sv.ty,))
 
     # ------------------------------------------------------------------ classes / isinstance
@@ -886,10 +896,16 @@ class Engine:
                           lambda: SV(INT, z3.If(PyObj.is_O_bool(o), z3.If(PyObj.bval(o), 1, 0), PyObj.ival(o)))),
                          (PyObj.is_O_float(o), lambda: SV(XREAL, PyObj.fval(o))),
                          (PyObj.is_O_str(o), lambda: SV(STR, PyObj.sval(o)))):
-            st, _, _, _, _ = self.prover.check(s.pc, goal, want_model=False, timeout_ms=1500)
+            st, _, _, _, _ = self.prover.check(self.ground_pc(s), goal, want_model=False, timeout_ms=1500, axioms=False)
             if st == "proved":
                 return mk()
         return v
+
+    def ground_pc(self, s):
+        """The quantifier-free part of the path condition (enough for type/finiteness refinements;
+        fewer hypotheses is always sound for a proof)."""
+        from .prover import split_hyps, has_quantifier
+        return [h for h in split_hyps(s.pc) if not has_quantifier(h)]
 
     def try_finite(self, v, s):
         """Refinement by proof: an XREAL operand that the path condition forces to be finite
@@ -899,7 +915,7 @@ class Engine:
         t = z3.simplify(v.t)
         if z3.is_app(t) and t.decl().eq(XR.fin):
             return SV(REAL, t.arg(0))
-        st, _, _, _, _ = self.prover.check(s.pc, XR.is_fin(t), want_model=False, timeout_ms=1500)
+        st, _, _, _, _ = self.prover.check(self.ground_pc(s), XR.is_fin(t), want_model=False, timeout_ms=1500, axioms=False)
         if st == "proved":
             return SV(REAL, z3.simplify(XR.val(t)))
         return v
@@ -1101,6 +1117,8 @@ class Engine:
             return z3.BoolVal(False)
         if ka == "ref" and kb == "ref":
             return a.t == b.t
+        if ka in ("enum", "type") and kb == ka:
+            return a.t == b.t
         if ka == "obj" or kb == "obj":
             return self.to_obj(a) == self.to_obj(b)
         if ka == "bool" and kb == "bool":
@@ -1164,6 +1182,8 @@ class Engine:
             return [(s, mk_bool(self.to_obj(a) == self.to_obj(b)))]
         if ka == "seq" and kb == "seq":
             return [(s, mk_bool(a.t == b.t))]
+        if ka in ("enum", "type") and kb == ka:
+            return [(s, mk_bool(a.t == b.t))]
         if ka == "map" and kb == "map":
             return [(s, mk_bool(a.t == b.t))]
         if ka != kb:
@@ -1207,6 +1227,7 @@ class Engine:
             m = node.value.id
             v = self.module_attr(m, node.attr)
             if v is not None:
+                self.assume_static(v, st)
                 return [(st, v)]
         outs = []
         for s, o in self.ev(node.value, st):
@@ -1249,6 +1270,24 @@ class Engine:
             return SV(REF("EventType"), ref, const=("static", owner, attr))
         return None
 
+    def assume_static(self, v, st):
+        """Facts about a static EventType instance (class-level constant created at import time):
+        an allocated EventType object without payload metadata, distinct from the other statics."""
+        if st is None or self.spec or not (isinstance(v.const, tuple) and v.const and v.const[0] == "static"):
+            return
+        st.assume(v.t > 0)
+        st.assume(v.t < self.A0)
+        st.assume(S.typeof(v.t) == self.class_id("EventType"))
+        if self.field_decl("EventType", "_metadata") is not None:
+            md = z3.Select(self.heap_arr(st, "EventType._metadata", OBJ), v.t)
+            st.assume(PyObj.is_O_none(md))
+        seen = self.reg.static_refs
+        key = v.const[1:]
+        for k2, t2 in seen.items():
+            if k2 != key:
+                st.assume(v.t != t2)
+        seen[key] = v.t
+
     def enum_member(self, cls, attr):
         ci = self.table.classes.get(cls)
         if ci is None:
@@ -1286,6 +1325,7 @@ class Engine:
                 return self.call_function(f, o, [], {}, s, recv_static=cls)
             ca = self.class_attr(cls, attr)
             if ca is not None:
+                self.assume_static(ca, s)
                 return [(s, ca)]
             # private name mangling: self.__x inside class C is _C__x
             if attr.startswith("__") and not attr.endswith("__") and self.cur_class:
@@ -1438,6 +1478,20 @@ class Engine:
     # ------------------------------------------------------------------ calls
     def ev_Call(self, node, st):
         from . import calls
+        if not self.spec and self.func is not None and isinstance(node.func, ast.Attribute):
+            inj = self.reg.ghost_calls.get((getattr(self.func, "qual", None), node.func.attr))
+            if inj:
+                # ghost statements attached (in the sidecar) to this call site: assertions are proof
+                # obligations, assignments update ghost fields; they never influence executable paths
+                k = self.site("ghost:" + node.func.attr)
+                for i, a in enumerate(inj.get("asserts", [])):
+                    g = self.spec_eval(a, st)
+                    self.oblige("ghost-assert.%s#%d.%d" % (node.func.attr, k, i), "ghost", st, g)
+                    st.assume(g)
+                for path, expr in inj.get("assign", []):
+                    from .calls import resolve_path
+                    for o, cls, fn in resolve_path(self, path, st.env, st):
+                        self.store_field(st, o.t, cls, fn, self.spec_value(expr, st))
         return calls.ev_call(self, node, st)
 
     def call_function(self, f, recv, args, kwargs, st, recv_static=None, via_super=False):
